@@ -133,8 +133,10 @@ func c06Case(c *run.Ctx, id string, seed uint64) run.Outcome {
 	if !scalarInt && (ctx == "switch-case" || ctx == "array-size" || ctx == "workgroup-size") {
 		ctx = c06Contexts[r.Intn(6)]
 	}
-	if floatRem && ctx == "runtime-form" {
-		ctx = c06Contexts[r.Intn(5)]
+	if floatRem && ctx != "module-const" && ctx != "const-assert" {
+		// only where the front end has to evaluate the tree: in a let / var initialiser / inline operand (and for a
+		// function-scope const, which naga inlines) folding is optional, and unfolded f32 % runs into F31 at run time
+		ctx = []string{"module-const", "const-assert"}[r.Intn(2)]
 	}
 	p := c06Skeleton(u)
 	val, cerr := wref.ConstEval(p.m, e)
